@@ -182,6 +182,20 @@ def theorems_of(prop_file):
     return re.findall(r"^\s*Theorem\s+(\w+)", txt, re.M)
 
 
+def coqchk(prop_file, timeout=900):
+    """independent re-check of the compiled property file and everything it depends on; returns (ok, axioms, text)"""
+    mod = "C2PA." + prop_file[:-2].replace("/", ".")
+    rc, out, err, _ = sh(f"coqchk -o -silent -Q . C2PA {mod}", cwd=COQ, timeout=timeout)
+    txt = out + err
+    m = re.search(r"\* Axioms:(.*?)\n\s*\n\* Constants/Inductives relying on type-in-type:(.*?)\n\s*\n\* Constants/Inductives relying on unsafe \(co\)fixpoints:(.*?)\n\s*\n\* Inductives whose positivity is assumed:(.*?)\n", txt, re.S)
+    if rc != 0 or not m:
+        return False, [], txt[-600:]
+    ax = [a.strip() for a in m.group(1).strip().splitlines() if a.strip() and a.strip() != "<none>"]
+    unsafe = [g.strip() for g in (m.group(2), m.group(3), m.group(4)) if g.strip() != "<none>"]
+    ok = not unsafe and all(a in AXIOM_ALLOW or a.split(".")[-1] in AXIOM_ALLOW for a in ax)
+    return ok, ax, txt[-600:]
+
+
 def coq_audit(prop, prop_file):
     """Build Properties/<prop>.vo through make, then print assumptions of each theorem with a
     separate coqc run.  Returns dict(obligations, discharged, failed:list, axioms:dict, log)"""
@@ -323,20 +337,26 @@ def coq_eval(prop, imports, exprs, shard_size=250, timeout=900, jobs=16):
             f.write(imports + "\nSet Printing Width 1000000.\nSet Printing Depth 1000000.\n")
             for j, e in enumerate(shard):
                 f.write(f'Goal True. idtac "@@CASE {j}". exact I. Qed.\nEval vm_compute in ({e}).\n')
+        # stdout goes to a file: a 64 KB pipe that nobody drains would block the coqc child
+        fo = open(path + ".out", "w")
+        fe = open(path + ".err", "w")
         return subprocess.Popen(f"timeout {timeout} coqc -noglob -Q {COQ} C2PA {path}", shell=True, cwd=CASES,
-                                stdout=subprocess.PIPE, stderr=subprocess.PIPE, text=True, env=env)
+                                stdout=fo, stderr=fe, env=env), path, fo, fe
 
-    k = 0
     pending = list(enumerate(shards))
     running = []
     while pending or running:
         while pending and len(running) < jobs:
             idx, shard = pending.pop(0)
             running.append((idx, shard, launch(idx, shard)))
-        idx, shard, p = running.pop(0)
-        out, err = p.communicate()
+        idx, shard, (p, path, fo, fe) = running.pop(0)
+        p.wait()
+        fo.close()
+        fe.close()
+        out = open(path + ".out").read()
+        err = open(path + ".err").read()
         if p.returncode != 0:
-            raise TieBroken(f"model evaluation failed for {prop} shard {idx}: {(out + err)[-800:]}")
+            raise TieBroken(f"model evaluation failed for {prop} shard {idx}: {(out[-400:] + err[-400:])}")
         parts = re.split(r"@@CASE (\d+)\n", out)
         for i in range(1, len(parts), 2):
             j = int(parts[i])
@@ -346,6 +366,11 @@ def coq_eval(prop, imports, exprs, shard_size=250, timeout=900, jobs=16):
                 m = re.match(r"=\s*(.*?)\s*:\s[^:]*\Z", body, re.S)
             term = m.group(1) if m else body
             results[idx * shard_size + j] = parse_coq_term(term)
+        for ext in ("", ".out", ".err"):
+            try:
+                os.remove(path + ext)
+            except OSError:
+                pass
     return results
 
 
